@@ -17,7 +17,7 @@ Require Import Grits.Base Grits.Forms Grits.Expand Grits.TcTop Grits.Runtime.
 Require Import Grits.RuntimeFootprint Grits.proofs.RuntimeFacts Grits.proofs.Diamond Grits.proofs.Determinism Grits.proofs.AsyncSync Grits.proofs.RuntimeCheckFacts Grits.proofs.ForkJoin Grits.proofs.DeterminismExamples.
 Require Import Grits.Tc Grits.spec.RtTyping Grits.spec.Topo Grits.proofs.RtSafety Grits.proofs.RtInit Grits.proofs.RtTheorems Grits.proofs.DeterminismTyped Grits.proofs.TopoLin Grits.proofs.TopoStep Grits.proofs.TopoReach Grits.proofs.InitLinear.
 Require Import Grits.spec.SynOk Grits.proofs.RtTcSyn Grits.proofs.RtTheoremsTc Grits.proofs.DeterminismTc.
-Require Import Grits.proofs.LinBridge Grits.proofs.InitAccept Grits.proofs.DeterminismAccept Grits.proofs.TopoStepExt Grits.proofs.TopoFinish Grits.proofs.TopoDup Grits.proofs.InvAll Grits.proofs.DeterminismAll Grits.proofs.AsyncSync Grits.proofs.InvNP Grits.proofs.PlainNP Grits.proofs.DeterminismNP Grits.proofs.Balanced Grits.proofs.RtTheoremsTc.
+Require Import Grits.proofs.LinBridge Grits.proofs.InitAccept Grits.proofs.DeterminismAccept Grits.proofs.TopoStepExt Grits.proofs.TopoFinish Grits.proofs.TopoDup Grits.proofs.InvAll Grits.proofs.DeterminismAll Grits.proofs.AsyncSync Grits.proofs.InvNP Grits.proofs.PlainNP Grits.proofs.DeterminismNP Grits.proofs.Balanced Grits.proofs.RtTheoremsTc Grits.proofs.DeterminismFinal Grits.proofs.NPConfluence.
 
 Theorem C03_step_is_move : forall md D F c ch, step md D F c ch = sres_of c (move_of md D F c ch).
 Proof. exact step_move. Qed.
@@ -632,6 +632,55 @@ Proof. exact np_polarized_agree_plain. Qed.
 Example C03_example_np_accept : np_accept_text example_text = true.
 Proof. exact example_np_accept. Qed.
 
+(* ---- FINAL FORMS for parsed programs (a9's SrcAll.all_src_parsed makes the source test a theorem):
+   parse ok, accepted, closed => determinism and Async/Sync agreement in both polarized modes; for the
+   non-polarized mode the class test plain_src_b (no forward / drop / split, one provider name) remains *)
+Theorem C03_determinism_parsed_final : forall txt p p' md pick1 pick2 f1 f2 t1,
+  parse_string txt = POk p -> typecheck p = Accept p' -> in_fragment p' -> is_np md = false ->
+  exec_run f1 pick1 md (p_types p') (p_funs p') (init_config p') = RQuiescent t1 -> (f1 <= f2)%nat ->
+  exists t2, exec_run f2 pick2 md (p_types p') (p_funs p') (init_config p') = RQuiescent t2 /\
+             cfg_equiv t2 t1 /\ labels t2 ≡ₚ labels t1.
+Proof. exact determinism_parsed_final. Qed.
+
+Theorem C03_async_sync_agree_parsed_final : forall txt p p' pick1 f1 t1,
+  parse_string txt = POk p -> typecheck p = Accept p' -> in_fragment p' ->
+  exec_run f1 pick1 Sync (p_types p') (p_funs p') (init_config p') = RQuiescent t1 ->
+  exists n, forall pick2 f2, (n < f2)%nat ->
+    exists t2, exec_run f2 pick2 Async (p_types p') (p_funs p') (init_config p') = RQuiescent t2 /\ labels t2 ≡ₚ labels t1.
+Proof. exact async_sync_agree_parsed_final. Qed.
+
+Theorem C03_determinism_np_plain_final : forall txt p p' pick1 pick2 f1 f2 t1,
+  parse_string txt = POk p -> typecheck p = Accept p' -> in_fragment p' -> plain_src_b p = true ->
+  exec_run f1 pick1 NP (p_types p') (p_funs p') (init_config p') = RQuiescent t1 -> (f1 <= f2)%nat ->
+  exists t2, exec_run f2 pick2 NP (p_types p') (p_funs p') (init_config p') = RQuiescent t2 /\
+             cfg_equiv t2 t1 /\ labels t2 ≡ₚ labels t1.
+Proof. exact determinism_np_plain_final. Qed.
+
+Theorem C03_np_polarized_agree_plain_final : forall txt p p' pick1 f1 t1,
+  parse_string txt = POk p -> typecheck p = Accept p' -> in_fragment p' -> plain_src_b p = true ->
+  exec_run f1 pick1 NP (p_types p') (p_funs p') (init_config p') = RQuiescent t1 ->
+  (forall pick2 f2, (f1 <= f2)%nat ->
+     exists t2, exec_run f2 pick2 Sync (p_types p') (p_funs p') (init_config p') = RQuiescent t2 /\ labels t2 ≡ₚ labels t1) /\
+  exists n, forall pick2 f2, (n < f2)%nat ->
+    exists t2, exec_run f2 pick2 Async (p_types p') (p_funs p') (init_config p') = RQuiescent t2 /\ labels t2 ≡ₚ labels t1.
+Proof. exact np_polarized_agree_plain_final. Qed.
+
+(* the peaks of the non-polarized mode (typed forest configuration, empty buffers): two different enabled
+   choices are independent - and then commute in one step - unless they share the target of a control
+   message: Control f t with Run t, with a Rendezvous of t, or with Control t t' *)
+Theorem C03_np_peak_cases : forall D F teq, teq_laws D teq -> funs_typed D F teq ->
+  forall Δ c, cfg_typed D F teq Δ c -> Topo c -> bufs_empty c ->
+  forall a b c1 c2, a <> b -> step NP D F c a = SStep c1 -> step NP D F c b = SStep c2 ->
+  indep NP D c a b \/ np_conflict a b \/ np_conflict b a.
+Proof. exact np_peak_cases. Qed.
+
+Theorem C03_np_peak_diamond : forall D F teq, teq_laws D teq -> funs_typed D F teq ->
+  forall Δ c, cfg_typed D F teq Δ c -> Topo c -> bufs_empty c ->
+  forall a b c1 c2, ns_ok c -> a <> b -> step NP D F c a = SStep c1 -> step NP D F c b = SStep c2 ->
+  ~ np_conflict a b -> ~ np_conflict b a ->
+  exists d1 d2, step NP D F c1 b = SStep d1 /\ step NP D F c2 a = SStep d2 /\ cfg_equiv d1 d2.
+Proof. exact np_peak_diamond. Qed.
+
 Print Assumptions C03_init_linear_accept.
 Print Assumptions C03_topo_runs_core_accept.
 Print Assumptions C03_determinism_core_accept.
@@ -660,3 +709,10 @@ Print Assumptions C03_determinism_np_plain.
 Print Assumptions C03_np_polarized_agree_plain.
 Print Assumptions C03_example_np_accept.
 Print Assumptions uniform_balanced.
+Print Assumptions C03_determinism_parsed_final.
+Print Assumptions C03_async_sync_agree_parsed_final.
+Print Assumptions C03_determinism_np_plain_final.
+Print Assumptions C03_np_polarized_agree_plain_final.
+Print Assumptions C03_np_peak_cases.
+Print Assumptions C03_np_peak_diamond.
+Print Assumptions uniform_balanced_bounded.
